@@ -393,7 +393,8 @@ def gen_case(rng: random.Random, P: Dict[str, Any]) -> Case:
         if s.kind != "final" and rng.random() < P["p_after"]:
             for pos, delay in enumerate(rng.sample(P.get("after_delays", [100000, 200000, 300000]),
                                                    rng.randint(1, 2))):
-                mk(s, f"after.{delay}.{s.id}", "after", 0, delay=delay)
+                mk(s, f"after.{delay}.{s.id}", "after", 0, delay=delay,
+                   forward_only=P.get("after_forward", False), targetless_ok=True)
         if s.kind in ("compound", "parallel") and s is not tree.root \
                 and rng.random() < P["p_ondone"]:
             has_final = any(d.kind == "final" for d in s.subtree())
